@@ -5,7 +5,7 @@
     attributes, rows as bit patterns) and compared with the model's `enc` INSIDE Coq; the objects
     returned by `from_file` are compared with the model's `dec` of the dumped file
 (c) oracle (Python, from the property text) on every generated object
-(d) evidence;  (e) known findings F12 / F15 (only reported when listed in known_findings.json)
+(d) evidence;  (e) known finding F12 (only reported when listed in known_findings.json)
 """
 from __future__ import annotations
 
@@ -32,8 +32,9 @@ TRUSTED = [
     "lexicographic order of their names; python int attrs are stored as int64/uint64; both checked on every sample "
     "(the dump of the real file must equal h5_store(enc x) computed in Coq)",
     "numpy behaviours determined by experiment and checked per sample: np.array of records with different dtypes is "
-    "an object array (h5py TypeError); tuple assignment to a structured row broadcasts a length-1 list; int -> f8 "
-    "is correctly rounded",
+    "an object array (h5py TypeError); record dtypes are equal iff dimension, fields and mode count agree (the layout "
+    "check of DropletTrack.data); tuple assignment to a structured row would broadcast a length-1 list (unreachable "
+    "behind that check); int -> f8 is correctly rounded",
     "the dump/canonicalisation code of this module (numpy uint64 views of the stored doubles)",
 ]
 ASSUME = [
@@ -43,9 +44,8 @@ ASSUME = [
     "C08_pad6_unsorted_refuted applies)",
     "objects are those the constructors / append produce (valid_drop, same dimension within a track, radius > -1 "
     "within a time course because EmulsionTimeCourse.append copies with Emulsion.copy())",
-    "tracks: no member with exactly one amplitude unless the first member has one too (no_bcast), integer times "
-    "within +-2^53 (times_exact); without them C08_dec_enc_track_refuted / C08_track_int_time_refuted apply; "
-    "time courses: no NaN radius (C08_etc_nan_radius_refuted)",
+    "tracks: integer times within +-2^53 (times_exact: the time column is f8; beyond it C08_track_int_time_refuted "
+    "applies); time courses: no NaN radius (C08_etc_nan_radius_refuted)",
     "times are python/numpy ints or 64-bit floats, not NaN",
     "class names are the five registered droplet classes",
 ]
@@ -56,9 +56,6 @@ RULE = ("objects generated from VERIF_SEED: all five classes, d=1..3, 1..15 ampl
 
 F12_TEXT = ("more than 10^6 frames/tracks: 6-digit keys sort lexicographically, time_1000000 is read before "
             "time_999999")
-F15_TEXT = ("DropletTrack whose first member has several amplitudes: a later member with exactly one amplitude is "
-            "broadcast by numpy, the file is written without error and reads back different")
-
 CLASS_NAMES = ["SphericalDroplet", "DiffuseDroplet", "PerturbedDroplet2D", "PerturbedDroplet3D",
                "PerturbedDroplet3DAxisSym"]
 COQ_CLASS = {"SphericalDroplet": "Spherical", "DiffuseDroplet": "Diffuse", "PerturbedDroplet2D": "P2D",
@@ -719,20 +716,6 @@ Definition agree2 (c : Z * file * result obj) : bool :=
 """
 
 
-def is_bcast_class(rec: dict) -> bool:
-    """Known finding F15: a track (also inside a track list) of one perturbed class whose first member has
-    n <> 1 amplitudes and in which a later member has exactly one."""
-    def track_matches(members):
-        if len(members) < 2 or len({m["cls"] for m in members}) != 1 or "ampl" not in members[0]:
-            return False
-        return len(members[0]["ampl"]) != 1 and any(len(m["ampl"]) == 1 for m in members[1:])
-    if rec["kind"] == "track":
-        return track_matches(rec["members"])
-    if rec["kind"] == "tracklist":
-        return any(track_matches(t["members"]) for t in rec["tracks"])
-    return False
-
-
 def track_with_mixed_dims(rec: dict) -> bool:
     tracks = [rec["members"]] if rec["kind"] == "track" else \
         [t["members"] for t in rec["tracks"]] if rec["kind"] == "tracklist" else []
@@ -784,7 +767,7 @@ def corpus() -> list[dict]:
     return [
         # F9 (fixed): P3D + AxisSym in one track
         {"kind": "track", "members": [p3, ax], "times": [{"int": 0}, {"int": 1}], "flavour": "mixed_class", "in_domain": True},
-        # F15: one amplitude after two
+        # F26 (fixed by f3c9dfd): one amplitude after two -- to_file must raise TypeError now
         {"kind": "track", "members": [p2([.1, .3]), p2([.2])], "times": [{"int": 0}, {"int": 1}], "flavour": "bcast",
          "in_domain": True},
         {"kind": "track", "members": [p2([.2]), p2([.1, .3])], "times": [{"int": 0}, {"int": 1}], "flavour": "mixed_layout",
@@ -849,7 +832,7 @@ def check(ctx: vlib.Ctx) -> int:
         ctx.tie.append("translator (Gen_codec regenerated from /repo: key formats, attribute names, markers, "
                        "sorted(), time column) + correspondence (real HDF5 files vs enc/dec evaluated in Coq)")
     known = vlib.load_known()
-    known_ids = {e.get("id") for e in known if e.get("id") == "F12" or e.get("property") == "C08"}
+    known_ids = {e.get("id") for e in known if e.get("id") == "F12"}
 
     workdir = ctx.casedir / "h5tmp"
     if workdir.exists():
@@ -933,23 +916,17 @@ def check(ctx: vlib.Ctx) -> int:
                                   f"(reader, file) pairs, first: {lits2[bad2[0]][:300]}")
 
         # ---- property oracle on every generated object of the domain
-        f15_seen = 0
         for i, res in enumerate(results):
             rec = res["recipe"]
             if not rec["in_domain"] or not res.get("oracle"):
                 continue
-            if is_bcast_class(rec) and "F15" in known_ids:
-                f15_seen += 1
-                continue
             ctx.violations.append({"what": "; ".join(res["oracle"][:4]), "input": rec, "found": True,
                                    "to_file": res.get("write"), "from_file": res.get("read"),
-                                   "model_agrees": i not in bad_cases,
-                                   "note": ("this input class is described by theorem C08_dec_enc_track_refuted "
-                                            "(candidate known finding F15)") if is_bcast_class(rec) else ""})
+                                   "model_agrees": i not in bad_cases})
         if len(ctx.violations) > 2:      # one replay file per distinct symptom is enough
             seen, keep = set(), []
             for v in ctx.violations:
-                key = (v["input"].get("kind"), "F15" if is_bcast_class(v["input"]) else v["what"][:60])
+                key = (v["input"].get("kind"), v["what"][:60])
                 if key not in seen:
                     seen.add(key)
                     keep.append(v)
@@ -972,7 +949,7 @@ def check(ctx: vlib.Ctx) -> int:
                 extra = [gen_recipe(rng, i) for i in range(ctx.scale(1500, 6000))]
                 for rec in extra:
                     res = run_one(rec, workdir)
-                    if rec["in_domain"] and res.get("oracle") and not (is_bcast_class(rec) and "F15" in known_ids):
+                    if rec["in_domain"] and res.get("oracle"):
                         ctx.violations.append({"what": "; ".join(res["oracle"][:4]), "input": rec, "found": True,
                                                "broken": (pending + ctx.broken)[:3]})
                         break
@@ -985,9 +962,6 @@ def check(ctx: vlib.Ctx) -> int:
         # ---- known findings (reported only when listed)
         if ok and not fell_back and "F12" in known_ids:
             ctx.known_printed.append(F12_TEXT)     # established for the current key format by C08_pad6_unsorted_refuted
-        if f15_seen and "F15" in known_ids:
-            ctx.known_printed.append(F15_TEXT)
-        ctx.extra["f15_inputs_seen"] = f15_seen + sum(1 for v in ctx.violations if is_bcast_class(v.get("input", {"kind": ""})))
     finally:
         shutil.rmtree(workdir, ignore_errors=True)
     return vlib.finish(ctx, "", TRUSTED, ASSUME, RULE)
